@@ -270,7 +270,8 @@ def tab_sets(ctx):
     fn = "encodation::c40::write_three_values"
     need(fn in f.thir, r, fn)
     b = f.thir[fn]
-    ps = [p["pat"]["name"] for p in b["params"]]
+    ps = [p["pat"].get("name") for p in b["params"] if p.get("pat")]
+    need(len(ps) in (2, 4) and all(ps), r, fn, "(parameters ctx, c1, c2, c3 or ctx, [c1, c2, c3])")
     pts = [0, 1, 2, 3, 13, 14, 38, 39] if ctx.tier != "thorough" else list(range(40))
     badp = None
     n = 0
@@ -279,7 +280,8 @@ def tab_sets(ctx):
             for c3 in pts:
                 sink = []
                 try:
-                    T.Folder(f, env={ps[1]: c1, ps[2]: c2, ps[3]: c3, ps[0]: "CTX"}, on_call=_push_hook(sink), effects=True).run(b["body"])
+                    env3 = {ps[1]: c1, ps[2]: c2, ps[3]: c3, ps[0]: "CTX"} if len(ps) == 4 else {ps[1]: [c1, c2, c3], ps[0]: "CTX"}
+                    T.Folder(f, env=env3, on_call=_push_hook(sink), effects=True).run(b["body"])
                 except (T.Trap, T.Undecidable) as ex:
                     sink = str(ex)
                 n += 1
